@@ -21,7 +21,7 @@ func init() {
 			"(R4) the deltas handed to ApplyDelta carry the value found just before as OldValue and CREATE only when absent (shared with C08.R4); " +
 			"(R5) in ApplyDelta the limit comparison follows every growth and its exceeding branch panics; " +
 			"(R6) the deltas recorded for a not-yet-final block are forgotten on every success path of the undo, stalled and final handlers, so a block re-applied after a flip-back is never reversed twice.",
-		NotCovered:  "\"rejected exactly when\" across merges (Merge applies no limit test), uint64 wrap-around, PartialKV.Roll which replaces kv without resetting the size (allowed with reason: the partial is not used after its roll).",
+		NotCovered:  "\"rejected exactly when\" across merges (Merge applies no limit test), uint64 wrap-around.",
 		Assumptions: []string{"the marshaller's Unmarshal returns the recounted size (C18.R3)", "map values are not mutated in place after insertion (byte slices are cloned at the recorders)"},
 	})
 }
@@ -39,7 +39,7 @@ func runC11(p *core.Prog, r *core.Report) {
 			"(*storage/store.baseStore).setNewKV":           "merge writer for absent keys, size updated (R2, R3)",
 			"(*storage/store.FullKV).Load":                  "kv and size assigned from the same Unmarshal result (R2)",
 			"(*storage/store.PartialKV).Load":               "kv and size assigned from the same Unmarshal result (R2)",
-			"(*storage/store.PartialKV).Roll":               "replaces kv by an empty map without resetting the size: tolerated, a tier-2 partial is not used after its roll (only call site is the last action of saveStoreSnapshot)",
+			"(*storage/store.PartialKV).Roll":               "replaces kv by an empty map and resets the size to zero in the same function (R2 PartialKV.Roll)",
 			"(*storage/store.FullKV).DerivePartialStore":    "constructor: fresh struct, empty map, size zero",
 			"(*storage/store.Config).newBaseStore":          "constructor: fresh struct, empty map, size zero",
 		})
@@ -52,6 +52,7 @@ func runC11(p *core.Prog, r *core.Report) {
 			"(*storage/store.baseStore).setNewKV":           "R2",
 			"(*storage/store.FullKV).Load":                  "R2",
 			"(*storage/store.PartialKV).Load":               "R2",
+			"(*storage/store.PartialKV).Roll":               "R2",
 		})
 	})
 
@@ -64,6 +65,33 @@ func runC11(p *core.Prog, r *core.Report) {
 	})
 	r.Guard("C11.R2", "setKV", "setKV effect", func() { checkSetKV(p, r, "baseStore.setKV", false) })
 	r.Guard("C11.R2", "setNewKV", "setNewKV effect", func() { checkSetKV(p, r, "baseStore.setNewKV", true) })
+	r.Guard("C11.R2", "PartialKV.Roll", "roll empties content and size together", func() {
+		fn := p.Func(pkgStore, "PartialKV.Roll")
+		r.Touch(core.FuncName(fn))
+		nKV, okKV, okSz := 0, true, false
+		for _, w := range core.FieldWritesIn(fn, kv()) {
+			nKV++
+			mm, isMake := w.Value.(*ssa.MakeMap)
+			if w.Kind != core.WAssign || !isMake || !(mm.Reserve == nil || isZeroConst(mm.Reserve)) {
+				okKV = false
+			}
+		}
+		for _, w := range core.FieldWritesIn(fn, size()) {
+			if w.Kind == core.WAssign && isZeroConst(w.Value) {
+				okSz = true
+			}
+		}
+		// on every path: no return between the two assignments matters little here (straight-line), but require both on all paths
+		_, missKV := core.MustReachAfter(fn, fn.Blocks[0].Instrs[0], func(x ssa.Instruction) bool {
+			for _, w := range core.FieldWritesIn(fn, size()) {
+				if w.Instr == x {
+					return true
+				}
+			}
+			return false
+		}, nil)
+		r.Check(nKV > 0 && okKV && okSz && missKV, "C11.R2", "PartialKV.Roll", "rolling a partial store replaces its content by an empty map AND resets the reported size to zero on every path", fmt.Sprintf("kv←empty map: %v (%d writes); size←0: %v; on every path: %v", okKV, nKV, okSz, missKV), p.Pos(fn.Pos()))
+	})
 	for _, m := range []string{"FullKV.Load", "PartialKV.Load"} {
 		m := m
 		r.Guard("C11.R2", m, "load assigns kv and size from one Unmarshal", func() {
